@@ -25,7 +25,9 @@ ID = "C08"
 LEVEL = "exploration"
 SHARDS = {"quick": 8, "thorough": 16}
 RULE = ("cases = (value descriptor, dp 0..12) for number(); (configuration, "
-        "1..6 builder calls with value descriptors) for the builder; value "
+        "1..6 builder calls with value descriptors, decimal places changed / an "
+        "axis renamed / a new formatter object installed in the middle of the "
+        "program) for the builder; value "
         "classes: +-0, subnormal, |v|<U, within 2 ulp of a rounding tie "
         "(k+1/2)*10^-dp, integers up to 1e15, arbitrary finite doubles, numpy "
         "float16/32/64 and int8..64/uint scalars, python ints, non-finite; "
@@ -289,6 +291,14 @@ def call_strategy():
         ]))
     reconf = st.one_of(
         st.integers(0, 12).map(lambda n: {"op": "reconfig", "dp": n}),
+        # an axis renamed in the middle of a program (rename_axis or the
+        # formatter's own setter), and a NEW formatter object installed with
+        # set_formatter() (configured like the old one but for decimal places)
+        st.tuples(st.sampled_from(["x", "y", "z"]),
+                  st.sampled_from(["A", "B", "C", "U", "V", "W", "Q", " b ", "x", "y", "z"]),
+                  st.sampled_from(["rename_axis", "format"])).map(
+            lambda t: {"op": "relabel", "axis": t[0], "label": t[1], "via": t[2]}),
+        st.integers(0, 12).map(lambda n: {"op": "new_formatter", "dp": n}),
         st.sampled_from([{"decimal_places": 1}, {"decimal_places": 0, "y_axis": "V"},
                          {"x_axis": "A", "z_axis": "C", "comment_symbols": "("},
                          {"decimal_places": 12, "line_endings": "\\r\\n", "comment_symbols": "#"}]).map(
@@ -380,7 +390,38 @@ def check_builder_case(case, ctx=None):
     classes.add("style:" + cfg["comment"])
     classes.add("eol:" + cfg["eol"])
     last_call = None
+    labels = dict(cfg["labels"] or {})
     for call in case["calls"]:
+        if call["op"] == "relabel":
+            ax = call["axis"].upper()
+            cur = {"X": "X", "Y": "Y", "Z": "Z"}
+            cur.update({a: l.strip().upper() for a, l in labels.items()})
+            used = {l for a, l in cur.items() if a != ax}
+            lab = next(l for l in [call["label"], "A", "B", "C", "U", "V", "W", "Q"]
+                       if l.strip().upper() not in used)
+            if call["via"] == "rename_axis":
+                s.g.rename_axis(call["axis"], lab)
+            else:
+                s.g.format.set_axis_label(call["axis"], lab)
+            labels[ax] = lab
+            classes.add("axis_renamed_mid_program")
+            continue
+        if call["op"] == "new_formatter":
+            from gscrib.formatters import DefaultFormatter
+            from vf.common import eol_of
+            f = DefaultFormatter()
+            dp = call["dp"]
+            f.set_decimal_places(dp)
+            f.set_comment_symbols(cfg["comment"])
+            f.set_line_endings(eol_of(cfg["eol"])[0])
+            for a, l in labels.items():
+                f.set_axis_label(a.lower(), l)
+            s.g.set_formatter(f)
+            s.dp = dp
+            if s.g.format is not f:
+                raise Violation("set_formatter(): builder.format is not the new formatter")
+            classes.add("new_formatter_installed_mid_program")
+            continue
         if call["op"] == "reconfig":
             # the configuration may change in the middle of a program
             dp = call["dp"]
@@ -405,7 +446,7 @@ def check_builder_case(case, ctx=None):
         if call["op"] == "sleep" and call.get("units"):
             s.g.set_time_units(call["units"])     # dwell in milliseconds / seconds
             classes.add("sleep_units:" + call["units"])
-        desc, exp, nlines, values = _build(call, dp, cfg["labels"])
+        desc, exp, nlines, values = _build(call, dp, labels)
         for d, v in zip(_descs(call), values):
             classes.update(value_classes(d, v, dp))
         nonfin = any(not math.isfinite(float(v)) for v in values)
@@ -437,7 +478,7 @@ def check_builder_case(case, ctx=None):
             # state may be inconsistent after a rejected call (C05's business):
             # start over with a fresh builder for the remaining calls
             s = Session(dp=dp, eol=cfg["eol"], comment=cfg["comment"],
-                        labels=cfg["labels"], strict=True)
+                        labels=labels or None, strict=True)
             last_call = None
             continue
         if raised is not None:
